@@ -131,6 +131,10 @@ fn server_for_cli(id: &'static str, slot: Vec<(&'static str, String)>) -> Server
                 if let Some(x) = put("player") { s.players[0].name = x }
                 if let Some(x) = put("rule-key") { s.rules[0].0 = x }
                 if let Some(x) = put("rule-value") { s.rules[0].1 = x }
+                if put("u64max").is_some() {
+                    let e = s.info.edf.as_mut().unwrap();
+                    e.steam_id = Some(u64::MAX);
+                }
                 // a full server: 100 players and 150 rules (documents of tens of kilobytes), replies split into 4 and 6
                 let mut big_transport = None;
                 if put("big").is_some() {
@@ -532,6 +536,8 @@ fn judge(format: &str, want: &Option<Value>, lib_err: Option<String>, r: &Run) -
     match (want, r.code) {
         (None, Some(c)) if c != 0 && c != 101 && !r.stderr.contains("panicked at") => None, // library fails too: clean error
         (None, c) => Some(("error-not-clean".into(), format!("library query fails ({lib_err:?}) but CLI exit {c:?}, stderr {:?}", clip(&r.stderr, 200)))),
+        // (BSON has no unsigned 64-bit integer: a class of its own, see known_findings.jsonl)
+        (Some(_), c) if c != Some(0) && format.starts_with("bson") && r.stderr.contains("UnsignedIntegerExceededRange") => Some((format!("exit-status:bson-cannot-hold-u64-above-i64-max:{format}"), format!("exit {c:?}, stderr {:?}", clip(&r.stderr, 300)))),
         (Some(_), c) if c != Some(0) => Some((format!("exit-status:{}", if r.stderr.contains("panicked at") { "panic" } else { "error" }), format!("exit {c:?}, stderr {:?}", clip(&r.stderr, 300)))),
         (Some(w), _) => {
             let out = String::from_utf8_lossy(&r.stdout).to_string();
@@ -667,6 +673,10 @@ impl Prop for C19 {
                 // a large response (document well above any internal block size)
                 if matches!(g.id, "teamfortress2" | "minecraftjava") {
                     assignments.push(vec![("big", "large-response", String::new())]);
+                }
+                // 64-bit fields at the top of their range (a SteamID / GameID of u64::MAX): every format has to carry them
+                if matches!(g.id, "teamfortress2") {
+                    assignments.push(vec![("u64max", "64-bit-fields-at-their-maximum", String::new())]);
                 }
                 // thorough: every two different slots non-plain at once (all class pairs)
                 if tier.is_thorough() && g.id != "killingfloor" {
